@@ -395,3 +395,22 @@ func (e *Engine) strlen(h Term) Term {
 	t := Term{fmt.Sprintf("(%s %s)", sl, h.S), e.ar.idxSort()}
 	return t
 }
+
+// elemIdx: absolute index of element i of a slice starting at off. Wrapped in the function symbol idx
+// (axiom: idx(a,b) = a+b) so that quantified facts about s[k] have an arithmetic-free trigger.
+func (e *Engine) elemIdx(off, i Term) Term {
+	z := e.ar.idxLit(0)
+	if off.S == z.S {
+		return i
+	}
+	return app(e.ar.idxSort(), "idx", off, i)
+}
+
+func (e *Engine) idxPrelude() string {
+	s := e.ar.idxSort()
+	plus := "+"
+	if e.ar.mode == ModeBV {
+		plus = "bvadd"
+	}
+	return fmt.Sprintf("(declare-fun idx (%s %s) %s)\n(assert (forall ((a %s) (b %s)) (! (= (idx a b) (%s a b)) :pattern ((idx a b)))))\n", s, s, s, s, s, plus)
+}
